@@ -1,4 +1,4 @@
-from .. import world
+from .. import world, gate
 from ..core import hexs
 
 
@@ -74,6 +74,33 @@ def gen_preview(rng, tier):
 
 T = "Tinode.Props.C13."
 
+def post_gate(ctx, ops, impl):
+    """the session gate with everything a client can send before and after logging in (junk tokens of every length included): a request
+    on which the server panics, or which - not being a note - gets no reply at all"""
+    bad = []
+    start = 0
+    for i, (o, out) in enumerate(zip(ops, impl)):
+        w = o.split(" ")
+        if w[0] == "reset":
+            start = i
+            continue
+        if out in ("panic", "crash"):
+            bad.append((ops[start:i + 1], f"C13 the server panicked while processing `{o}`"))
+            continue
+        p = gate.parse(out)
+        if p is None or w[0] in ("validators", "cred", "note", "empty"):
+            continue
+        if not p["replies"] and not p["hub"]:
+            bad.append((ops[start:i + 1], f"C13 request `{o}` was neither answered nor handed to the hub"))
+    seen, uniq = set(), []
+    for case, why in bad:
+        k = why.split("`")[0]
+        if k not in seen:
+            seen.add(k)
+            uniq.append((case, why))
+    return uniq
+
+
 PROP = dict(
     id="C13",
     level_text="PARTIAL. The push preview of a message (128-rune truncation of arbitrary multi-byte content) is modelled with Go's rune conversion and proved total and exact, tied by a differential stream in package push/fcm. 'Never terminates the server' is decided by running every generated request - including requests to names never issued, deleted topics, unattached sessions, ill-formed mode strings, out-of-range numbers - through the real Session.dispatch/Hub/Topic code in the world stream: a panic is reported with its history (this found the hub panic of {del topic} on an ill-formed name, fix: 5cd265c). Kernel-checked Lean theorems carry the reply obligation of the transcribed handlers: a publish is always answered under every fault plan, {del topic} for an unknown name is answered, invalid notes are silent. The monitor checks on every history that each request other than a note got a reply and that unknown topics are answered with an error code.",
@@ -82,7 +109,7 @@ PROP = dict(
     modules=["TinodeVerif.Props.C13"],
     theorems=[T + n for n in ['saveMessage_frames', 'pub_always_answered', 'del_unknown_topic_answered', 'invalid_note_silent', 'leave_unanswered_witness',
                               'preview_short_unchanged', 'preview_few_runes_unchanged', 'preview_long_cut', 'preview_cases']],
-    streams=[world.world_stream("C13"), dict(name="preview", pkg="fcm", gen=gen_preview, classify=lambda o, i: (i if o.startswith("push.drafty") else ("cut" if len(i) < len(o.split(" ")[1]) else "kept")))],
+    streams=[world.world_stream("C13"), dict(gate.gate_stream(), post=post_gate), dict(name="preview", pkg="fcm", gen=gen_preview, classify=lambda o, i: (i if o.startswith("push.drafty") else ("cut" if len(i) < len(o.split(" ")[1]) else "kept")))],
     seeds=dict(quick=1, thorough=4),
     rule="random histories of 30-120 requests per case (420 cases quick, 600 thorough per seed, every third a clause scenario with random parameters) over 4 users, 7 sessions (two per user, "
          "one background, one anonymous, one root acting for others) up to 3 group topics and the peer-to-peer topics between the users, a third of the cases with one injected "
